@@ -171,6 +171,13 @@ def run_native(job, wd, tier, seed, replay_input=None):
                target=job['target_file'] + ' + native/' + job['harness'] + ' :: ' + job['test'], seconds=secs, cmd=cmd,
                trusted=['native job %s: rustc/cargo of the repository toolchain; harness native/%s' % (job['id'], job['harness'])])
     test_line = re.search(r'^test .*%s ... (\w+)' % re.escape(job['test']), output, re.M)
+    if test_line is None:
+        # a harness whose subject prints to the captured streams splits the `test .. ok` line: use the summary lists
+        # (`--show-output` prints `successes:` / `failures:` followed by the indented test names)
+        for word, section in (('ok', 'successes'), ('FAILED', 'failures')):
+            if re.search(r'^%s:\n(?:    \S+\n)*?    %s$' % (section, re.escape(job['test'])), output, re.M):
+                test_line = re.match(r'(\w+)', word)
+                break
     cases = re.search(r'VERIF-JOB %s CASES (\d+)' % re.escape(job['id']), output)
     fail = re.search(r'VERIF-JOB %s FAIL (.*)' % re.escape(job['id']), output)
     if rc == -9:
